@@ -34,9 +34,6 @@ Proof.
   destruct (Nat.eqb c k) eqn:E; cbn; rewrite IH; reflexivity.
 Qed.
 
-Lemma proj_app : forall k a b, proj k (a ++ b) = proj k a ++ proj k b.
-Proof. intros. unfold proj. now rewrite filter_app, map_app. Qed.
-
 Lemma proj_tprog : forall ns es cur hist k, 0 <= cur -> secs_valid ns es ->
   proj k (tprog cur hist es) = compile (hist (Z.of_nat k)) (project_from cur (Z.of_nat k) es).
 Proof.
@@ -88,7 +85,7 @@ Theorem same_image : forall nl ns offs rs cs,
   Forall (fun c => is_emitter_call c = true) cs -> all_ok (init_state rs) cs = true ->
   let direct := program (trace cs) in
   let serialized := program (trace (replay (BuilderModel.run (init_state rs) cs))) in
-  secs_valid ns (trace cs) -> NoDup (bound_labels direct) -> nowrap nl ns direct offs ->
+  secs_valid ns (trace cs) -> NoDup (bound_labels direct) -> delta_local_final nl ns direct -> nowrap nl ns direct offs ->
   let s1 := LabelsModel.run init ((prelude nl ns ++ expand direct) ++ [OResolve offs]) in
   let s2 := LabelsModel.run init ((prelude nl ns ++ expand serialized) ++ [OResolve offs]) in
   labels s1 = labels s2 /\ unresolved s1 = unresolved s2 /\ Permutation (relocs s1) (relocs s2) /\
@@ -96,7 +93,7 @@ Theorem same_image : forall nl ns offs rs cs,
     s_len (nsec s1 k) = s_len (nsec s2 k) /\
     sec_image (refs s1) (s_items (nsec s1 k)) = sec_image (refs s2) (s_items (nsec s2 k)).
 Proof.
-  intros nl ns offs rs cs HE HOK direct serialized HV HN HW.
+  intros nl ns offs rs cs HE HOK direct serialized HV HN HD HW.
   destruct (replay_is_grouping rs cs HE HOK) as (HP & HS & _).
   assert (HV2 : secs_valid ns (trace (replay (BuilderModel.run (init_state rs) cs)))).
   { intros x Hx. rewrite trace_replay in Hx. apply node_ecall_section in Hx. apply HS in Hx. destruct Hx as [->|Hx]; [lia|apply HV; exact Hx]. }
@@ -116,7 +113,7 @@ Definition enc_ex (h : list ecall) (e : ecall) : list sop :=
   | EAlign _ _ => [SGap 3]
   | EData _ _ _ d => [SRaw d]
   | ELabel l _ => [SAbs (Z.to_nat l) 8 0 [] []]                      (* embed_label: 8 bytes + a RelToAbs relocation entry *)
-  | EDelta _ _ _ => [SRaw [0; 0; 0; 0]]
+  | EDelta l b sz => [SDelta (Z.to_nat l) (Z.to_nat b) sz]           (* embed_label_delta: the difference at once, or an expression entry *)
   | EComment _ => []
   | ESection _ => []
   end.
@@ -124,9 +121,9 @@ Definition enc_ex (h : list ecall) (e : ecall) : list sop :=
 Lemma example_image_hypotheses :
   let direct := program enc_ex (trace example_program) in
   secs_valid 1 (trace example_program) /\ NoDup (bound_labels direct) /\ nowrap 2 1 direct [0; 4096] /\
-  proj 0 direct <> [] /\ proj 1 direct <> [].
+  proj 0 direct <> [] /\ proj 1 direct <> [] /\ delta_local_final 2 1 direct /\ In (1%nat, SDelta 1 0 4) direct.
 Proof.
-  cbv zeta. split; [|split; [|split; [|split]]].
+  cbv zeta. split; [|split; [|split; [|split; [|split; [|split]]]]].
   - intros x H. vm_compute in H. repeat (destruct H as [H|H]; [try discriminate; injection H as <-; lia|]). contradiction.
   - vm_compute. repeat constructor; cbn; intuition discriminate.
   - intros k Hk. destruct k as [|[|k]]; [| |lia]; split.
@@ -136,4 +133,8 @@ Proof.
     + intros l off H. destruct l as [|[|l]]; vm_compute in H; try discriminate; injection H as <-; vm_compute; reflexivity.
   - vm_compute. discriminate.
   - vm_compute. discriminate.
+  - intros k l b sz Hin k' lo bo Hk A1 A2. vm_compute in Hin.
+    repeat (destruct Hin as [Hin|Hin]; [try discriminate|]); [|contradiction]. injection Hin as <- <- <- <-.
+    destruct k' as [|[|k']]; [|reflexivity|lia]. vm_compute in A2. discriminate.
+  - vm_compute. tauto.
 Qed.
